@@ -415,7 +415,7 @@ package rewriter
 //@ pred FullSlice(e ast.Expr) := isa(e, SliceExpr) && !isnil(e) && isnil(as(e, SliceExpr).Low)
 //@        && isnil(as(e, SliceExpr).High) && isnil(as(e, SliceExpr).Max) && !as(e, SliceExpr).Slice3
 
-//@ closure yieldRewriter.rewriteRanges#0 (c) (ok)
+//@ closure yieldRewriter.rewriteRanges#0 as @Apply.2 (c) (ok)
 //@   reveal wf-ast
 //@   captured-inv r != nil
 //@   requires c != nil && YRCtx(r)
@@ -777,7 +777,7 @@ package rewriter
 
 //@ pred WfBranch(n *ast.BranchStmt) := n != nil && (n.Tok == token.BREAK || n.Tok == token.CONTINUE || n.Tok == token.GOTO || n.Tok == token.FALLTHROUGH)
 
-//@ closure yieldRewriter.rewriteBreakContinues#0 (n) (res)
+//@ closure yieldRewriter.rewriteBreakContinues#0 as doRewrite (n) (res)
 //@   captured-inv r != nil && loopStack != nil && switchStack != nil
 //@   requires n != nil && YRCtx(r) && SLen(loopStack) > 0 && SLen(switchStack) > 0
 //@   requires n.Tok == token.BREAK || n.Tok == token.CONTINUE || n.Tok == token.GOTO || n.Tok == token.FALLTHROUGH
@@ -795,7 +795,7 @@ package rewriter
 //@   -- that target was a loop; a break whose target was a switch/select that pass 2 dissolved must complete it normally.
 //@   ensures[lowering-S2] n.Tok == token.BREAK && !(STop(loopStack) || STop(switchStack)) ==> SrcBreakTargetsLoop(n)
 
-//@ closure yieldRewriter.rewriteBreakContinues#2 (c) (ok)
+//@ closure yieldRewriter.rewriteBreakContinues#2 as @Apply.1 (c) (ok)
 //@   captured-inv loopStack != nil && switchStack != nil && funcLitStack != nil
 //@   requires c != nil && SLen(loopStack) > 0 && SLen(switchStack) > 0 && SLen(funcLitStack) > 0
 //@   ensures[descend] ok
@@ -810,14 +810,14 @@ package rewriter
 //@        && STop(loopStack) == old(STop(loopStack)) && STop(switchStack) == old(STop(switchStack))
 //@   modifies cell(loopStack), cell(switchStack), cell(funcLitStack)
 
-//@ closure yieldRewriter.rewriteBreakContinues#1 (blk)
+//@ closure yieldRewriter.rewriteBreakContinues#1 as rmRedundantReturn (blk)
 //@   reveal wf-ast
 //@   captured-inv r != nil
 //@   requires blk != nil && YRCtx(r) && StmtList(blk.List)
 //@   ensures[drops-at-most-the-last] len(blk.List) == old(len(blk.List)) || len(blk.List) == old(len(blk.List)) - 1
 //@   modifies blk.List
 
-//@ closure yieldRewriter.rewriteBreakContinues#3 (c) (ok)
+//@ closure yieldRewriter.rewriteBreakContinues#3 as @Apply.2 (c) (ok)
 //@   reveal wf-ast
 //@   captured-inv r != nil && loopStack != nil && switchStack != nil && funcLitStack != nil && body != nil && StmtList(body.List)
 //@   requires c != nil && YRCtx(r)
@@ -859,7 +859,7 @@ package rewriter
 //@        && len(as(lit.Body.List[0], ReturnStmt).Results) == 1 && isa(as(lit.Body.List[0], ReturnStmt).Results[0], CallExpr)
 //@        && !isnil(as(lit.Body.List[0], ReturnStmt).Results[0])
 
-//@ closure optimizer.etaReduction#0 (ctx, paramsFields, argsExprs) (ok)
+//@ closure optimizer.etaReduction#0 as matched (ctx, paramsFields, argsExprs) (ok)
 //@   loop #3 invariant forall j: Int :: 0 <= j && j < _idx ==> args[j].Name == params[j].Name && objectOf(args[j]) == objectOf(params[j])
 //@   ensures[local:positional] ok ==> len(args) == len(params) && (forall j: Int :: 0 <= j && j < len(args) ==> args[j].Name == params[j].Name && objectOf(args[j]) == objectOf(params[j]))
 
@@ -933,13 +933,13 @@ package rewriter
 
 //@ pred IsIgnoreOf(s ast.Node, e ast.Expr) := isa(s, AssignStmt) && !isnil(s) && as(s, AssignStmt).Tok == token.ASSIGN && len(as(s, AssignStmt).Lhs) == 1
 //@        && isa(as(s, AssignStmt).Lhs[0], Ident) && len(as(s, AssignStmt).Rhs) == 1 && as(s, AssignStmt).Rhs[0] == e
-//@ closure yieldRewriter.rewriteReturnAndForSwitchInitStmtInYieldFun#0 (ret) (isNil)
+//@ closure yieldRewriter.rewriteReturnAndForSwitchInitStmtInYieldFun#0 as isRetNil (ret) (isNil)
 //@   trusted      -- go/types lookups: is the returned expression absent or the untyped nil
 //@   ensures len(ret.Results) == 0 ==> isNil
 //@   ensures isNil == RetIsNil(ret)
 
-//@ closure yieldRewriter.rewriteReturnAndForSwitchInitStmtInYieldFun#2 (c) (ok)
-//@   reveal wf-ast
+//@ closure yieldRewriter.rewriteReturnAndForSwitchInitStmtInYieldFun#2 as @Apply.2 (c) (ok)
+//@   reveal wf-ast, pre-pass0      -- this *is* pass 0: initialisers may still be short variable declarations
 //@   captured-inv r != nil && yieldFunStack != nil
 //@   requires c != nil && YRCtx(r) && SLen(yieldFunStack) > 0
 //@   requires isa(cursorNode(c), FuncDecl) || isa(cursorNode(c), FuncLit) ==> SLen(yieldFunStack) > 1
